@@ -1,5 +1,6 @@
 """C18 - correlation and comparable-score metrics are well defined."""
 from vf import loader
+from vf.estimators import StickyRegressor
 from vf.core import Clause, Outcome, Violation, require
 
 import numpy as np
@@ -32,6 +33,10 @@ def _model(name):
         return LinearRegression()
     if name == "tree":
         return DecisionTreeRegressor(max_depth=3, random_state=0)
+    if name == "sticky-warm":
+        return StickyRegressor(warm_start=True)
+    if name == "sticky":
+        return StickyRegressor(warm_start=False)
     return DummyRegressor()
 
 
@@ -72,6 +77,14 @@ def check_correlations(case):
     rf = call(df)
     require(np.array_equal(A, A0), "input-modified:array", "", facts)
     require(df.equals(df0) and list(df.columns) == list(df0.columns) and list(df.index) == list(df0.index), "input-modified:frame", "", facts)
+    if case["model"] == "sticky-warm":
+        # a model built with warm_start=True (a second fit of the same object keeps what the first learnt): every coefficient comes from
+        # its own freshly cloned model, so the flag changes nothing
+        np.random.seed(case["seed"])
+        cold = _cor.non_linear_correlations(A, _model("sticky"), draws=case["draws"], minmax=case["minmax"])
+        for u, v in zip(ra if isinstance(ra, tuple) else (ra,), cold if isinstance(cold, tuple) else (cold,)):
+            require(np.array_equal(np.asarray(u, dtype=np.float64), np.asarray(v, dtype=np.float64), equal_nan=True), "warm-start-model:differs",
+                    "a warm_start=True model gives other correlations than the same model without the flag: %r vs %r" % (np.asarray(u).tolist(), np.asarray(v).tolist()), facts)
     if case["minmax"]:
         require(isinstance(ra, tuple) and len(ra) == 3 and isinstance(rf, tuple) and len(rf) == 3, "minmax:not-three", "", facts)
         names = ("cor", "min", "max")
@@ -89,12 +102,12 @@ def check_correlations(case):
         fv = np.asarray(f.values, dtype=np.float64)
         require(bool(np.all(np.isfinite(a))) and bool(np.all(np.isfinite(fv))), "not-finite:" + name, "", facts)
         require(bool(np.all(a >= -1e-12)) and bool(np.all(a <= 1 + 1e-12)), "range:" + name, "min %r max %r" % (float(a.min()), float(a.max())), facts)
-        if case["model"] != "tree":
+        if case["model"] not in ("tree",):
             # a tree is a discontinuous learner: the 1-ulp difference between scale(frame) and scale(array) can flip a
             # tie between two equally good splits, so equality is only demanded of the continuous learners - and, for the linear
             # model, only of rows whose predictor column is not constant on a training half (a least-squares slope on a constant
             # column is 0/0 at rounding level: 1 ulp in the scaled data changes it arbitrarily)
-            rows_ok = learnable if case["model"] == "linear" else np.ones(k, dtype=bool)
+            rows_ok = learnable if case["model"] in ("linear", "sticky-warm", "sticky") else np.ones(k, dtype=bool)
             dd = np.abs(a - fv)[rows_ok]
             require(bool(np.all(dd <= 1e-9)), "frame!=array:" + name, "max abs difference %r" % (float(dd.max()) if dd.size else 0.0), facts)
         mats[name] = a
@@ -137,7 +150,7 @@ def _cor_cases(draw, tier="quick"):
     labels = draw(st.lists(st.sampled_from(["a", "b", "X1", "X2", "col 3", "é", "y", "z9"]), min_size=5, max_size=5, unique=True))
     if draw(st.booleans()):
         labels = draw(st.lists(st.integers(0, 20), min_size=5, max_size=5, unique=True))
-    return dict(table=table, columns=labels, dtype=dtype, model=draw(st.sampled_from(["linear", "linear", "tree", "dummy"])),
+    return dict(table=table, columns=labels, dtype=dtype, model=draw(st.sampled_from(["linear", "linear", "tree", "dummy", "sticky-warm"])),
                 draws=draw(st.integers(1, 4)), minmax=draw(st.booleans()), seed=draw(st.integers(0, 2**31 - 2)),
                 index=draw(st.sampled_from(["default", "default", "permuted", "repeated", "strings"])),
                 index_keys=draw(st.lists(st.integers(0, 10**6), min_size=40, max_size=40)))
